@@ -36,6 +36,9 @@ def main():
     extra = hist_part(V, core.tier(), core.seed())
     from . import gas, therm
     extra.update(gas.gas_part(V, "C07", core.tier(), core.seed(), [{"numba": True}]))
+    # arbitrary nets (library water in sequential mode / lgas, different junction temperatures, trickle flows): numba = numpy cell by cell
+    from . import c01
+    extra.update(c01.relational_part(V, "C07", "numba", core.tier(), core.seed(), workers=6, ncap=260 if core.tier() == "quick" else 4000))
     rc1 = V.finish()
     rc2 = ref.run_check("C07", RULE, nmax_quick=240, workers=4, extra_cov=extra, prior_violations=len(V.violations))
     return 1 if (rc1 or rc2) else 0
